@@ -253,7 +253,7 @@ pub fn warmup() {
     // body on enough consecutive threads to reach that steady state (found with seeded change
     // C06-r3-1, whose minimised scenario reproduced after 58 executions in the minimiser's process
     // and not as the first execution of a fresh one).
-    for _ in 0..24 {
+    for _ in 0..std::env::var("VERIF_WARMUP_THREADS").ok().and_then(|s| s.parse().ok()).unwrap_or(24usize) {
         warmup_once();
     }
 }
